@@ -36,7 +36,7 @@ ASSUMPTIONS = [
 ]
 
 HORIZON = 4000
-GROUPS = {"S6": 160}
+GROUPS = {"S6a": 64, "S6b": 64}
 DEFAULT_GROUPS = 48
 
 # ----------------------------------------------------------------------------- scenarios (pure data, JSON-able)
@@ -56,9 +56,12 @@ SCENARIOS: Dict[str, List[Tuple[str, List[List[Any]]]]] = {
                   ["send", "a1", "y1"], ["send", "a0", "x2"], ["send", "a1", "y2"]]),
            ("B", [["connect", "b0", "B", "A", 0, P], ["connect", "b1", "B", "A", 1, P], ["recv", "b1"], ["recv", "b0"],
                   ["recv", "b0"], ["recv", "b1"]])],
-    "S6": [("A", [["bconnect", "ca", "A", ["B", "C"]], ["bnb", "ca"], ["bsend", "ca", "m1"], ["brecv", "ca"], ["brecv", "ca"]]),
-           ("B", [["bconnect", "cb", "B", ["A"]], ["brecv", "cb"], ["bsend", "cb", "rB"]]),
-           ("C", [["bconnect", "cc", "C", ["A"]], ["brecv", "cc"], ["bsend", "cc", "rC"]])],
+    "S6a": [("A", [["bconnect", "ca", "A", ["B", "C"]], ["bsend", "ca", "m1"]]),
+            ("B", [["bconnect", "cb", "B", ["A"]], ["brecv", "cb"]]),
+            ("C", [["bconnect", "cc", "C", ["A"]], ["brecv", "cc"]])],
+    "S6b": [("A", [["bconnect", "ca", "A", ["B", "C"]], ["bnb", "ca"], ["brecv", "ca"], ["brecv", "ca"]]),
+            ("B", [["connect", "b", "B", "A", 0, P], ["send", "b", "rB"]]),
+            ("C", [["connect", "c", "C", "A", 0, P], ["send", "c", "rC"]])],
     "S7": [("A", [["connect", "a", "A", "B", 0, P], ["send", "a", "m1"], ["send", "a", "m2"], ["close", "a"]]),
            ("B", [["connect", "b", "B", "A", 0, P], ["wait", "b"], ["recv", "b"], ["recv", "b"], ["nb", "b"]])],
     "S8": [("A", [["connect", "a", "A", "B", 0, P], ["sends", "a", "h1", "p1"], ["sends", "a", "h2", "p2"], ["recvs", "a"]]),
@@ -68,7 +71,7 @@ SCENARIOS: Dict[str, List[Tuple[str, List[List[Any]]]]] = {
     "S9b": [("A", [["tick"], ["tick"], ["connect", "a", "A", "B", 0, P], ["send", "a", "m1"], ["close", "a"]]),
             ("B", [["connect", "b", "B", "A", 0, P], ["recv", "b"]])],
 }
-ORDER = ["S1", "S2", "S3a", "S3b", "S4", "S5", "S6", "S7", "S8", "S9a", "S9b"]
+ORDER = ["S1", "S2", "S3a", "S3b", "S4", "S5", "S6a", "S6b", "S7", "S8", "S9a", "S9b"]
 
 
 # ----------------------------------------------------------------------------- running one schedule of one scenario
@@ -196,9 +199,9 @@ def _drain(s):
     return got
 
 
-def run_schedule(scen: str, devs, states=None, trace=False) -> sched.Result:
+def run_schedule(scen: str, devs, states=None, trace=False, reduce=True) -> sched.Result:
     world.reset()
-    ex = sched.Execution(devs, HORIZON, states=states, trace=trace)
+    ex = sched.Execution(devs, HORIZON, states=states, trace=trace, reduce=reduce)
     w = sched.SocketWorld(ex)
     env = Env(ex, w)
     for name, ops in SCENARIOS[scen]:
@@ -342,132 +345,201 @@ def _ch_of(meta, name):
     return (r, m[1], 0) if m[0] == "bc" else (m[1], m[0], m[2])
 
 
+_KEEP = {"connect": 2, "send": 3, "send-refused": 3, "recv": 3, "nb": 3, "brecv": 4, "bnb": 4, "close": 2, "wait": 2,
+         "raised": 3}
+
+
 def strip_times(res: sched.Result):
-    logs = {}
-    for tn, log in res.logs.items():
-        logs[tn] = [tuple(x for x in e[:3]) if e[0] not in ("brecv", "bnb") else tuple(e[:4]) for e in log]
-    return (res.outcome, json.dumps(logs, sort_keys=True, default=str), json.dumps(res.final, sort_keys=True, default=str))
+    """The observation without logical time stamps (what equivalent schedules must agree on)."""
+    logs = {tn: [list(e[:_KEEP[e[0]]]) for e in log] for tn, log in res.logs.items()}
+    stuck = sorted([d[0], d[4]] for d in res.detail) if res.outcome in ("deadlock", "livelock") else None
+    return json.dumps([res.outcome, stuck, logs, res.final], sort_keys=True, default=str)
 
 
 # ----------------------------------------------------------------------------- shards
-def _record(scen, res, devs, part, obs):
-    part["evals"] += 1
-    part["distinct"] += 1
-    part["transitions"] += res.steps
-    count(part, f"{scen}/executions")
-    count(part, f"{scen}/preemptions={res.preemptions}")
-    obs.add(hash(strip_times(res)))
+AUDIT = "audit"          # unreduced exploration (every line event is a preemption candidate) at a lower bound
+MAIN = "main"
+AUDIT2 = ("S1", "S3a", "S3b", "S4", "S9a")   # thorough: unreduced exploration up to 2 preemptions for the small scenarios
+
+
+def bounds_for(tier: str, scen: str) -> Tuple[int, int]:
+    """(bound of the reduced exploration, bound of the unreduced audit exploration)"""
+    if tier == "quick":
+        return 2, 1
+    return 3, (2 if scen in AUDIT2 else 1)
+
+
+def _case(scen, devs, res):
+    return {"scenario": scen, "devs": [list(d) for d in devs], "preemptions": res.preemptions, "deviations": res.cost,
+            "threads": [[n, ops] for n, ops in SCENARIOS[scen]]}
+
+
+def _detail(res, tr, oracle):
+    return {"preemptions": res.preemptions, "deviations": res.cost, "schedule": sched.narrative(tr), "logs": res.logs,
+            "final": res.final, "oracle": oracle}
+
+
+def _record(scen, mode, res, devs, part, obs, audit_bound):
+    if mode == MAIN:
+        part["evals"] += 1
+        part["distinct"] += 1
+        part["transitions"] += res.steps
+        count(part, f"{scen}/executions")
+        count(part, f"{scen}/cost={res.cost}")
+        count(part, f"{scen}/preemptions={res.preemptions}")
+    else:
+        count(part, f"{scen}/audit-executions")
+    o = strip_times(res)
+    obs["all"].add(hash(o))
+    if res.cost <= audit_bound:
+        obs["low"].setdefault(hash(o), (o, [list(d) for d in devs]))
     viol = judge(scen, res, devs, part)
-    for fp, what, detail in viol:
-        tr = run_schedule(scen, devs, trace=True)
+    for fp, what, oracle in viol:
+        tr = run_schedule(scen, devs, trace=True, reduce=(mode == MAIN))
         if tr.key() != res.key():
             raise sched.Nondeterminism(f"{scen}: counterexample schedule {devs} does not replay identically")
-        add_violation(part, fp, f"{scen}: {what}",
-                      {"scenario": scen, "devs": [list(d) for d in devs], "preemptions": res.preemptions,
-                       "threads": [[n, ops] for n, ops in SCENARIOS[scen]]},
-                      {"preemptions": res.preemptions, "schedule": sched.narrative(tr), "logs": res.logs, "final": res.final,
-                       "oracle": detail})
+        add_violation(part, fp, f"{scen}: {what}", _case(scen, devs, res), _detail(res, tr, oracle))
     return bool(viol)
 
 
 def shard_fn(shard):
-    scen, g, groups, bound = shard
+    import time
+    t0 = time.time()
+    scen, mode, g, roots, bound, audit_bound = shard
     part = new_part()
     states: set = set()
-    obs: set = set()
-    run_one = lambda devs: run_schedule(scen, devs, states=states)
-    root, kids = sched.first_level(run_one)
-    mine = kids[g::groups]
+    obs = {"all": set(), "low": {}}
+    reduce = mode == MAIN
+    run_one = lambda devs: run_schedule(scen, devs, states=states if reduce else None, reduce=reduce)
     st = sched.Stats()
-    sched.explore(run_one, mine, bound, lambda res, devs: _record(scen, res, devs, part, obs), st)
-    count(part, f"{scen}/sleeps", st.nsleeps)
-    count(part, f"{scen}/poll-rounds", st.npolls)
-    count(part, f"{scen}/lock-blocks", st.lock_blocks)
-    count(part, f"{scen}/alternatives-beyond-bound", st.deferred_beyond_bound)
-    count(part, "determinism-replays", st.replayed + 1)
+    sched.explore(run_one, roots, bound, lambda res, devs: _record(scen, mode, res, devs, part, obs, audit_bound), st,
+                  det_first=20 if g == 0 else 2)
+    if reduce:
+        count(part, f"{scen}/sleeps", st.nsleeps)
+        count(part, f"{scen}/poll-rounds", st.npolls)
+        count(part, f"{scen}/lock-blocks", st.lock_blocks)
+        count(part, f"{scen}/alternatives-beyond-bound", st.deferred_beyond_bound)
+    count(part, f"{scen}/determinism-replays", st.replayed)
     part["_states"] = states
     part["_obs"] = obs
-    part["_max_steps"] = max(st.max_steps, root.steps)
+    part["_max_steps"] = st.max_steps
     part["_scen"] = scen
-    if g == 0 and mine:
-        add_sample(part, {"scenario": scen, "devs": mine[0][0], "threads": [[n, ops] for n, ops in SCENARIOS[scen]]})
+    part["_mode"] = mode
+    part["_wall"] = round(time.time() - t0, 2)
+    part["_id"] = f"{scen}/{mode}/{g}"
+    if reduce and g == 0 and roots:
+        add_sample(part, {"scenario": scen, "devs": roots[0][0], "threads": [[n, ops] for n, ops in SCENARIOS[scen]]})
     return part
 
 
 def run(ctx):
-    bound = 2 if ctx.tier == "quick" else 3
     sched.init_tracing()
     ctx.extra["polling_loops_detected"] = sched.poll_loops()
-    # the root schedule of every scenario is judged here; its children are dealt to the shards
     root_part = new_part()
     shards = []
     states: Dict[str, set] = {s: set() for s in ORDER}
-    obs: Dict[str, set] = {s: set() for s in ORDER}
+    obs = {m: {s: {"all": set(), "low": {}} for s in ORDER} for m in (MAIN, AUDIT)}
     first = {}
+    max_steps = 0
     for scen in ORDER:
-        st = states[scen]
-        res, kids = sched.first_level(lambda devs: run_schedule(scen, devs, states=st))
-        _record(scen, res, [], root_part, obs[scen])
-        first[scen] = {"decisions_default_schedule": res.steps, "first_level_alternatives": len(kids)}
-        groups = min(len(kids), GROUPS.get(scen, DEFAULT_GROUPS)) or 1
-        for g in range(groups):
-            shards.append((scen, g, groups, bound))
+        bound, abound = bounds_for(ctx.tier, scen)
+        for mode in (MAIN, AUDIT):
+            # layer 0 (every schedule without a charged deviation, i.e. every choice of the starting thread and of the free
+            # switches) is explored here; the cost-1 schedules it leaves behind are dealt to the shards as subtree roots
+            reduce = mode == MAIN
+            st = states[scen] if reduce else None
+            stats = sched.Stats()
+            roots: List[Tuple[List, int]] = []
+            sched.explore(lambda devs: run_schedule(scen, devs, states=st, reduce=reduce), [([], 0)], 0,
+                          lambda res, devs: _record(scen, mode, res, devs, root_part, obs[mode][scen], abound), stats,
+                          overflow=roots)
+            max_steps = max(max_steps, stats.max_steps)
+            count(root_part, f"{scen}/determinism-replays", stats.replayed)
+            if reduce:
+                count(root_part, f"{scen}/sleeps", stats.nsleeps)
+                count(root_part, f"{scen}/poll-rounds", stats.npolls)
+                first[scen] = {"schedules_without_deviation": stats.executions, "subtree_roots": len(roots),
+                               "threads": len(SCENARIOS[scen]), "bound": bound, "audit_bound": abound}
+            else:
+                first[scen]["subtree_roots_unreduced"] = len(roots)
+            roots.sort(key=lambda r: (r[0][-1][0], r[0]))
+            groups = min(len(roots), GROUPS.get(scen, DEFAULT_GROUPS)) or 1
+            for g in range(groups):
+                shards.append((scen, mode, g, roots[g::groups], bound if reduce else abound, abound))
     add_sample(root_part, {"scenario": "S1", "devs": [], "threads": [[n, ops] for n, ops in SCENARIOS["S1"]]})
     ctx.merge(root_part)
     results = ctx.pmap(shard_fn, shards)
-    max_steps = 0
     for r in results:
-        states[r["_scen"]] |= r["_states"]
-        obs[r["_scen"]] |= r["_obs"]
+        if r["_mode"] == MAIN:
+            states[r["_scen"]] |= r["_states"]
+        o = obs[r["_mode"]][r["_scen"]]
+        o["all"] |= r["_obs"]["all"]
+        for h, v in r["_obs"]["low"].items():
+            o["low"].setdefault(h, v)
         max_steps = max(max_steps, r["_max_steps"])
     ctx.total["states"] = sum(len(s) for s in states.values())
-    # report the counterexample with the fewest preemptions first
-    ctx.total["violations"].sort(key=lambda v: (v["fingerprint"], v["case"]["preemptions"], len(v["case"]["devs"]),
+    ctx.extra["slowest_shards_s"] = sorted(((r["_wall"], r["_id"]) for r in results), reverse=True)[:5]
+    ctx.extra["shard_wall_sum_s"] = round(sum(r["_wall"] for r in results), 1)
+    # the counterexample with the fewest preemptions / deviations is the one reported first
+    ctx.total["violations"].sort(key=lambda v: (v["fingerprint"], v["case"]["deviations"], len(v["case"]["devs"]),
                                                 json.dumps(v["case"]["devs"])))
-    per = {}
+    # reduction audit: the reduced exploration (preemptions only before segments that touch shared state) must see exactly
+    # the observations the unreduced exploration sees at the same bound
+    audit = {}
     for scen in ORDER:
+        red, full = obs[MAIN][scen]["low"], obs[AUDIT][scen]["low"]
+        audit[scen] = {"bound": first[scen]["audit_bound"], "observations_reduced": len(red), "observations_unreduced": len(full),
+                       "unreduced_executions": ctx.counter(f"{scen}/audit-executions")}
+        if set(red) != set(full) and not ctx.total["violations"]:
+            only_full = [full[h] for h in full if h not in red][:2]
+            only_red = [red[h] for h in red if h not in full][:2]
+            raise CheckBroken(f"{scen}: reduction audit failed at bound {first[scen]['audit_bound']}: observations only in the "
+                              f"unreduced exploration {only_full!r}, only in the reduced one {only_red!r}")
+    ctx.extra["reduction_audit"] = audit
+    per = {}
+    top = 0
+    for scen in ORDER:
+        bound = first[scen]["bound"]
+        top = max(top, bound)
         per[scen] = dict(first[scen])
         per[scen].update({
             "executions": ctx.counter(f"{scen}/executions"),
+            "by_deviation_cost": {str(b): ctx.counter(f"{scen}/cost={b}") for b in range(bound + 1)},
             "by_preemptions": {str(b): ctx.counter(f"{scen}/preemptions={b}") for b in range(bound + 1)},
             "states": len(states[scen]),
-            "distinct_observations": len(obs[scen]),
+            "distinct_observations": len(obs[MAIN][scen]["all"]),
             "alternatives_beyond_bound": ctx.counter(f"{scen}/alternatives-beyond-bound"),
         })
-    ctx.extra["preemption_bound_reached"] = bound
-    ctx.extra["bounds_run_in_order"] = list(range(bound + 1))
+    ctx.extra["preemption_bound_reached"] = top
+    ctx.extra["bounds_run_in_order"] = list(range(top + 1))
     ctx.extra["step_horizon"] = HORIZON
     ctx.extra["max_steps_in_one_execution"] = max_steps
     ctx.extra["per_scenario"] = per
     # vacuity guards
     for scen in ORDER:
         ctx.require(f"{scen}/executions", 2)
-        ctx.require(f"{scen}/preemptions={bound}", 1)
+        ctx.require(f"{scen}/preemptions={first[scen]['bound']}", 1)
         ctx.require(f"{scen}/sleeps", 1)
-        if len(obs[scen]) < 1:
-            raise CheckBroken(f"{scen}: no observation recorded")
+        ctx.require(f"{scen}/audit-executions", 2)
+        ctx.require(f"{scen}/determinism-replays", 20)
     ctx.total["counters"]["S3/delivery/callback"] = ctx.counter("S3a/delivery/callback")
-    ctx.total["counters"]["S3/delivery/queued"] = ctx.counter("S3a/delivery/queued-at-end") + ctx.counter("S3b/delivery/queued-at-end")
+    ctx.total["counters"]["S3/delivery/queued"] = (ctx.counter("S3a/delivery/queued-at-end")
+                                                   + ctx.counter("S3b/delivery/queued-at-end"))
     ctx.require("S3/delivery/callback", 1)
     ctx.require("S3/delivery/queued", 1)
     ctx.require("S4/nb-empty", 1)
     ctx.require("S4/nb-message", 1)
-    ctx.require("S6/nb-empty", 1)
-    ctx.require("S6/poll-rounds", 1)
+    ctx.require("S6b/nb-empty", 1)
+    ctx.require("S6a/poll-rounds", 1)
+    ctx.require("S6b/poll-rounds", 1)
     ctx.require("S7/poll-rounds", 1)
     ctx.require("S7/nb-empty", 1)
-    ctx.require("determinism-replays", 20 * len(ORDER))
-    for scen in ORDER:
-        if scen not in ("S3a",) and len(obs[scen]) < 2 and scen in ("S2", "S4", "S6"):
-            raise CheckBroken(f"{scen}: only one distinct observation over all schedules (interleavings not distinguished)")
 
 
 def replay(case, part):
     scen = case["scenario"]
     devs = [list(d) for d in case["devs"]]
     sched.install_quiet_abort()
-    res = sched.run_twice(lambda d: run_schedule(scen, d, trace=True), devs)
-    for fp, what, detail in judge(scen, res, devs, part):
-        add_violation(part, fp, f"{scen}: {what}", case,
-                      {"preemptions": res.preemptions, "schedule": sched.narrative(res), "logs": res.logs, "final": res.final,
-                       "oracle": detail})
+    res = sched.run_twice(lambda d: run_schedule(scen, d, trace=True, reduce=False), devs)
+    for fp, what, oracle in judge(scen, res, devs, part):
+        add_violation(part, fp, f"{scen}: {what}", case, _detail(res, res, oracle))
